@@ -32,24 +32,41 @@ pub fn run(args: Vec<String>) -> i32 {
 }
 
 fn replay(a: &ShardArgs, part: &str) -> J {
-    J::obj(vec![("check", J::s("c20")), ("seed", J::U(a.seed)), ("shard", J::U(a.shard)), ("nshards", J::U(a.nshards)), ("part", J::s(part))])
+    J::obj(vec![
+        ("check", J::s("c20")),
+        ("seed", J::U(a.seed)),
+        ("shard", J::U(a.shard)),
+        ("nshards", J::U(a.nshards)),
+        ("part", J::s(part)),
+    ])
 }
 
 fn viol(a: &ShardArgs, rule: &str, sig: &str, why: String) {
-    out::violation(P, &format!("C20.{rule}"), sig, J::obj(vec![("why", J::s(why))]), replay(a, rule));
+    out::violation(
+        P,
+        &format!("C20.{rule}"),
+        sig,
+        J::obj(vec![("why", J::s(why))]),
+        replay(a, rule),
+    );
 }
 
 /// variant name of a Debug rendering, lower-cased without separators and payload
 fn norm(d: &dyn Debug) -> String {
     let s = format!("{d:?}");
-    let head: String = s.chars().take_while(|c| c.is_alphanumeric() || *c == '_').collect();
+    let head: String = s
+        .chars()
+        .take_while(|c| c.is_alphanumeric() || *c == '_')
+        .collect();
     head.to_lowercase().replace('_', "")
 }
 
 /// all variants of a generated binding enum, through its own From<c_int>
 fn variants<T: From<c_int> + Debug + Clone + Send + 'static>() -> Vec<T> {
     // enumerated once per type (every miss is a caught panic)
-    static CACHE: std::sync::Mutex<Option<std::collections::HashMap<std::any::TypeId, Box<dyn std::any::Any + Send>>>> = std::sync::Mutex::new(None);
+    static CACHE: std::sync::Mutex<
+        Option<std::collections::HashMap<std::any::TypeId, Box<dyn std::any::Any + Send>>>,
+    > = std::sync::Mutex::new(None);
     {
         let mut g = CACHE.lock().unwrap_or_else(|e| e.into_inner());
         let m = g.get_or_insert_with(Default::default);
@@ -61,7 +78,8 @@ fn variants<T: From<c_int> + Debug + Clone + Send + 'static>() -> Vec<T> {
     }
     let v = variants_uncached::<T>();
     let mut g = CACHE.lock().unwrap_or_else(|e| e.into_inner());
-    g.get_or_insert_with(Default::default).insert(std::any::TypeId::of::<T>(), Box::new(v.clone()));
+    g.get_or_insert_with(Default::default)
+        .insert(std::any::TypeId::of::<T>(), Box::new(v.clone()));
     v
 }
 
@@ -88,15 +106,36 @@ struct Tally<'a> {
 }
 
 impl<'a> Tally<'a> {
-    fn new(a: &'a ShardArgs, conv: &'static str, renames: &'static [(&'static str, &'static str)], allow_merge: &'static [&'static str]) -> Self {
-        Tally { a, conv, renames, seen: Default::default(), allow_merge }
+    fn new(
+        a: &'a ShardArgs,
+        conv: &'static str,
+        renames: &'static [(&'static str, &'static str)],
+        allow_merge: &'static [&'static str],
+    ) -> Self {
+        Tally {
+            a,
+            conv,
+            renames,
+            seen: Default::default(),
+            allow_merge,
+        }
     }
     fn pair(&mut self, src: &dyn Debug, dst: &dyn Debug) {
         out::eval(1);
         let (s, d) = (norm(src), norm(dst));
-        let expected = self.renames.iter().find(|(x, _)| x.to_lowercase() == s).map(|(_, y)| y.to_lowercase()).unwrap_or(s.clone());
+        let expected = self
+            .renames
+            .iter()
+            .find(|(x, _)| x.to_lowercase() == s)
+            .map(|(_, y)| y.to_lowercase())
+            .unwrap_or(s.clone());
         if d != expected {
-            viol(self.a, "name_mismatch", &format!("{}|{}", self.conv, s), format!("{}: {src:?} is converted to {dst:?}", self.conv));
+            viol(
+                self.a,
+                "name_mismatch",
+                &format!("{}|{}", self.conv, s),
+                format!("{}: {src:?} is converted to {dst:?}", self.conv),
+            );
         } else {
             out::count("variants_map_to_namesake", 1);
         }
@@ -104,7 +143,15 @@ impl<'a> Tally<'a> {
         let full_dst = format!("{dst:?}");
         if let Some(prev) = self.seen.get(&full_dst) {
             if *prev != s && !self.allow_merge.iter().any(|m| m.to_lowercase() == d) {
-                viol(self.a, "not_injective", &format!("{}|{}", self.conv, d), format!("{}: both {prev} and {s} are converted to {dst:?}", self.conv));
+                viol(
+                    self.a,
+                    "not_injective",
+                    &format!("{}|{}", self.conv, d),
+                    format!(
+                        "{}: both {prev} and {s} are converted to {dst:?}",
+                        self.conv
+                    ),
+                );
             }
         } else {
             self.seen.insert(full_dst, s);
@@ -114,7 +161,16 @@ impl<'a> Tally<'a> {
         out::count(&format!("conversion_{}", self.conv), self.seen.len() as u64);
         out::distinct(&format!("conv/{}", self.conv));
         if self.seen.len() < min {
-            viol(self.a, "enumeration_incomplete", self.conv, format!("{}: only {} variants were enumerated, at least {min} expected", self.conv, self.seen.len()));
+            viol(
+                self.a,
+                "enumeration_incomplete",
+                self.conv,
+                format!(
+                    "{}: only {} variants were enumerated, at least {min} expected",
+                    self.conv,
+                    self.seen.len()
+                ),
+            );
         }
     }
 }
@@ -148,7 +204,12 @@ macro_rules! round_trip {
             let back: $ffi = n.clone().into();
             out::eval(1);
             if back != f {
-                viol($a, "round_trip", &format!("{}|{}", $name, norm(&f)), format!("{}: {f:?} -> {n:?} -> {back:?}", $name));
+                viol(
+                    $a,
+                    "round_trip",
+                    &format!("{}|{}", $name, norm(&f)),
+                    format!("{}: {f:?} -> {n:?} -> {back:?}", $name),
+                );
             } else {
                 out::count("round_trips_ok", 1);
             }
@@ -159,29 +220,135 @@ macro_rules! round_trip {
 fn enums(a: &ShardArgs) {
     // ---- binding -> native
     ffi_to_native!(a, "FileMode", ffi::FileMode, dnp3::master::FileMode, 3, &[]);
-    ffi_to_native!(a, "CommandMode", ffi::CommandMode, dnp3::master::CommandMode, 2, &[]);
-    ffi_to_native!(a, "TimeSyncMode", ffi::TimeSyncMode, dnp3::master::TimeSyncProcedure, 3, &[]);
-    ffi_to_native!(a, "FunctionCode(in)", ffi::FunctionCode, dnp3::app::FunctionCode, 33, &[]);
-    ffi_to_native!(a, "UpdateFlagsType", ffi::UpdateFlagsType, UpdateFlagsType, 7, &[]);
-    ffi_to_native!(a, "UdpSocketMode", ffi::UdpSocketMode, dnp3::udp::UdpSocketMode, 2, &[]);
-    ffi_to_native!(a, "LinkErrorMode", ffi::LinkErrorMode, dnp3::link::LinkErrorMode, 2, &[]);
-    ffi_to_native!(a, "LinkReadMode", ffi::LinkReadMode, dnp3::link::LinkReadMode, 2, &[]);
-    ffi_to_native!(a, "CommandStatus(in)", ffi::CommandStatus, CommandStatus, 21, &[]);
-    ffi_to_native!(a, "Variation(in)", ffi::Variation, Variation, 100, &[("Group110", "Group110"), ("Group111", "Group111")]);
-    ffi_to_native!(a, "AppDecodeLevel(in)", ffi::AppDecodeLevel, dnp3::decode::AppDecodeLevel, 4, &[]);
-    ffi_to_native!(a, "TransportDecodeLevel(in)", ffi::TransportDecodeLevel, dnp3::decode::TransportDecodeLevel, 3, &[]);
-    ffi_to_native!(a, "LinkDecodeLevel(in)", ffi::LinkDecodeLevel, dnp3::decode::LinkDecodeLevel, 3, &[]);
-    ffi_to_native!(a, "PhysDecodeLevel(in)", ffi::PhysDecodeLevel, dnp3::decode::PhysDecodeLevel, 3, &[]);
+    ffi_to_native!(
+        a,
+        "CommandMode",
+        ffi::CommandMode,
+        dnp3::master::CommandMode,
+        2,
+        &[]
+    );
+    ffi_to_native!(
+        a,
+        "TimeSyncMode",
+        ffi::TimeSyncMode,
+        dnp3::master::TimeSyncProcedure,
+        3,
+        &[]
+    );
+    ffi_to_native!(
+        a,
+        "FunctionCode(in)",
+        ffi::FunctionCode,
+        dnp3::app::FunctionCode,
+        33,
+        &[]
+    );
+    ffi_to_native!(
+        a,
+        "UpdateFlagsType",
+        ffi::UpdateFlagsType,
+        UpdateFlagsType,
+        7,
+        &[]
+    );
+    ffi_to_native!(
+        a,
+        "UdpSocketMode",
+        ffi::UdpSocketMode,
+        dnp3::udp::UdpSocketMode,
+        2,
+        &[]
+    );
+    ffi_to_native!(
+        a,
+        "LinkErrorMode",
+        ffi::LinkErrorMode,
+        dnp3::link::LinkErrorMode,
+        2,
+        &[]
+    );
+    ffi_to_native!(
+        a,
+        "LinkReadMode",
+        ffi::LinkReadMode,
+        dnp3::link::LinkReadMode,
+        2,
+        &[]
+    );
+    ffi_to_native!(
+        a,
+        "CommandStatus(in)",
+        ffi::CommandStatus,
+        CommandStatus,
+        21,
+        &[]
+    );
+    ffi_to_native!(
+        a,
+        "Variation(in)",
+        ffi::Variation,
+        Variation,
+        100,
+        &[("Group110", "Group110"), ("Group111", "Group111")]
+    );
+    ffi_to_native!(
+        a,
+        "AppDecodeLevel(in)",
+        ffi::AppDecodeLevel,
+        dnp3::decode::AppDecodeLevel,
+        4,
+        &[]
+    );
+    ffi_to_native!(
+        a,
+        "TransportDecodeLevel(in)",
+        ffi::TransportDecodeLevel,
+        dnp3::decode::TransportDecodeLevel,
+        3,
+        &[]
+    );
+    ffi_to_native!(
+        a,
+        "LinkDecodeLevel(in)",
+        ffi::LinkDecodeLevel,
+        dnp3::decode::LinkDecodeLevel,
+        3,
+        &[]
+    );
+    ffi_to_native!(
+        a,
+        "PhysDecodeLevel(in)",
+        ffi::PhysDecodeLevel,
+        dnp3::decode::PhysDecodeLevel,
+        3,
+        &[]
+    );
     {
         // EventClass -> Option<EventClass>
-        let mut t = Tally::new(a, "EventClass", &[("None", "None"), ("Class1", "Some"), ("Class2", "Some"), ("Class3", "Some")], &[]);
+        let mut t = Tally::new(
+            a,
+            "EventClass",
+            &[
+                ("None", "None"),
+                ("Class1", "Some"),
+                ("Class2", "Some"),
+                ("Class3", "Some"),
+            ],
+            &[],
+        );
         for f in variants::<ffi::EventClass>() {
             let n: Option<EventClass> = f.clone().into();
             // compare the payload name for Some(..)
             match (&f, &n) {
                 (ffi::EventClass::None, None) => out::count("variants_map_to_namesake", 1),
                 (_, Some(c)) if norm(c) == norm(&f) => out::count("variants_map_to_namesake", 1),
-                _ => viol(a, "name_mismatch", &format!("EventClass|{}", norm(&f)), format!("EventClass: {f:?} is converted to {n:?}")),
+                _ => viol(
+                    a,
+                    "name_mismatch",
+                    &format!("EventClass|{}", norm(&f)),
+                    format!("EventClass: {f:?} is converted to {n:?}"),
+                ),
             }
             t.seen.insert(format!("{n:?}"), norm(&f));
             out::eval(1);
@@ -199,7 +366,12 @@ fn enums(a: &ShardArgs) {
             };
             out::eval(1);
             if name != norm(&f) {
-                viol(a, "name_mismatch", &format!("WriteTimeResult|{}", norm(&f)), format!("WriteTimeResult: {f:?} is converted to {n:?}"));
+                viol(
+                    a,
+                    "name_mismatch",
+                    &format!("WriteTimeResult|{}", norm(&f)),
+                    format!("WriteTimeResult: {f:?} is converted to {n:?}"),
+                );
             } else {
                 out::count("variants_map_to_namesake", 1);
             }
@@ -215,7 +387,12 @@ fn enums(a: &ShardArgs) {
             };
             out::eval(1);
             if name != norm(&f) {
-                viol(a, "name_mismatch", &format!("FreezeResult|{}", norm(&f)), format!("FreezeResult: {f:?} is converted to {n:?}"));
+                viol(
+                    a,
+                    "name_mismatch",
+                    &format!("FreezeResult|{}", norm(&f)),
+                    format!("FreezeResult: {f:?} is converted to {n:?}"),
+                );
             } else {
                 out::count("variants_map_to_namesake", 1);
             }
@@ -225,10 +402,30 @@ fn enums(a: &ShardArgs) {
     }
     // ---- native -> binding (native values enumerated through the library's own constructors)
     let all_status: Vec<CommandStatus> = (0..=255u8).map(CommandStatus::from).collect();
-    native_to_ffi!(a, "CommandStatus(out)", all_status, ffi::CommandStatus, 21, &[], &["Unknown"]);
-    let all_fc: Vec<dnp3::app::FunctionCode> = (0..=255u8).filter_map(dnp3::app::FunctionCode::from).collect();
-    native_to_ffi!(a, "FunctionCode(out)", all_fc, ffi::FunctionCode, 33, &[], &[]);
-    let codes: Vec<ControlCode> = (0..=255u8).map(dnp3::verif::util::control_code_from).collect();
+    native_to_ffi!(
+        a,
+        "CommandStatus(out)",
+        all_status,
+        ffi::CommandStatus,
+        21,
+        &[],
+        &["Unknown"]
+    );
+    let all_fc: Vec<dnp3::app::FunctionCode> = (0..=255u8)
+        .filter_map(dnp3::app::FunctionCode::from)
+        .collect();
+    native_to_ffi!(
+        a,
+        "FunctionCode(out)",
+        all_fc,
+        ffi::FunctionCode,
+        33,
+        &[],
+        &[]
+    );
+    let codes: Vec<ControlCode> = (0..=255u8)
+        .map(dnp3::verif::util::control_code_from)
+        .collect();
     {
         let mut t1 = Tally::new(a, "TripCloseCode(out)", &[("Unknown", "Nul")], &["Nul"]);
         let mut t2 = Tally::new(a, "OpType(out)", &[("Unknown", "Nul")], &["Nul"]);
@@ -238,13 +435,35 @@ fn enums(a: &ShardArgs) {
             t2.pair(&c.op_type, &f.op_type());
             out::eval(1);
             if f.clear() != c.clear || f.queue() != c.queue {
-                viol(a, "field_lost", "ControlCode|clear-queue", format!("ControlCode {c:?}: clear/queue converted to {}/{}", f.clear(), f.queue()));
+                viol(
+                    a,
+                    "field_lost",
+                    "ControlCode|clear-queue",
+                    format!(
+                        "ControlCode {c:?}: clear/queue converted to {}/{}",
+                        f.clear(),
+                        f.queue()
+                    ),
+                );
             }
             // and back, for the codes the binding can express
-            if !matches!(c.tcc, TripCloseCode::Unknown(_)) && !matches!(c.op_type, OpType::Unknown(_)) {
+            if !matches!(c.tcc, TripCloseCode::Unknown(_))
+                && !matches!(c.op_type, OpType::Unknown(_))
+            {
                 let back: ControlCode = f.into();
-                if dnp3::verif::util::control_code_as_u8(back) != dnp3::verif::util::control_code_as_u8(*c) {
-                    viol(a, "round_trip", "ControlCode", format!("ControlCode {:#04x} -> binding -> {:#04x}", dnp3::verif::util::control_code_as_u8(*c), dnp3::verif::util::control_code_as_u8(back)));
+                if dnp3::verif::util::control_code_as_u8(back)
+                    != dnp3::verif::util::control_code_as_u8(*c)
+                {
+                    viol(
+                        a,
+                        "round_trip",
+                        "ControlCode",
+                        format!(
+                            "ControlCode {:#04x} -> binding -> {:#04x}",
+                            dnp3::verif::util::control_code_as_u8(*c),
+                            dnp3::verif::util::control_code_as_u8(back)
+                        ),
+                    );
                 } else {
                     out::count("round_trips_ok", 1);
                 }
@@ -253,17 +472,45 @@ fn enums(a: &ShardArgs) {
         t1.done(4);
         t2.done(5);
     }
-    native_to_ffi!(a, "OperateType", [dnp3::outstation::OperateType::SelectBeforeOperate, dnp3::outstation::OperateType::DirectOperate, dnp3::outstation::OperateType::DirectOperateNoAck], ffi::OperateType, 3, &[], &[]);
+    native_to_ffi!(
+        a,
+        "OperateType",
+        [
+            dnp3::outstation::OperateType::SelectBeforeOperate,
+            dnp3::outstation::OperateType::DirectOperate,
+            dnp3::outstation::OperateType::DirectOperateNoAck
+        ],
+        ffi::OperateType,
+        3,
+        &[],
+        &[]
+    );
     native_to_ffi!(
         a,
         "BroadcastAction",
-        [dnp3::outstation::BroadcastAction::Processed, dnp3::outstation::BroadcastAction::IgnoredByConfiguration, dnp3::outstation::BroadcastAction::BadObjectHeaders, dnp3::outstation::BroadcastAction::UnsupportedFunction(dnp3::app::FunctionCode::Write)],
+        [
+            dnp3::outstation::BroadcastAction::Processed,
+            dnp3::outstation::BroadcastAction::IgnoredByConfiguration,
+            dnp3::outstation::BroadcastAction::BadObjectHeaders,
+            dnp3::outstation::BroadcastAction::UnsupportedFunction(dnp3::app::FunctionCode::Write)
+        ],
         ffi::BroadcastAction,
         4,
         &[],
         &[]
     );
-    native_to_ffi!(a, "ConnectionState", [dnp3::outstation::ConnectionState::Connected, dnp3::outstation::ConnectionState::Disconnected], ffi::ConnectionState, 2, &[], &[]);
+    native_to_ffi!(
+        a,
+        "ConnectionState",
+        [
+            dnp3::outstation::ConnectionState::Connected,
+            dnp3::outstation::ConnectionState::Disconnected
+        ],
+        ffi::ConnectionState,
+        2,
+        &[],
+        &[]
+    );
     native_to_ffi!(
         a,
         "ClientState",
@@ -280,7 +527,20 @@ fn enums(a: &ShardArgs) {
         &[],
         &[]
     );
-    native_to_ffi!(a, "ReadType", [dnp3::master::ReadType::Unsolicited, dnp3::master::ReadType::StartupIntegrity, dnp3::master::ReadType::PeriodicPoll, dnp3::master::ReadType::SinglePoll], ffi::ReadType, 4, &[], &[]);
+    native_to_ffi!(
+        a,
+        "ReadType",
+        [
+            dnp3::master::ReadType::Unsolicited,
+            dnp3::master::ReadType::StartupIntegrity,
+            dnp3::master::ReadType::PeriodicPoll,
+            dnp3::master::ReadType::SinglePoll
+        ],
+        ffi::ReadType,
+        4,
+        &[],
+        &[]
+    );
     {
         use dnp3::master::TaskType as T;
         // exhaustive list: the match below stops compiling when a variant is added
@@ -306,13 +566,38 @@ fn enums(a: &ShardArgs) {
         ];
         for t in &all {
             match t {
-                T::UserRead | T::PeriodicPoll | T::StartupIntegrity | T::AutoEventScan | T::Command | T::ClearRestartBit | T::EnableUnsolicited | T::DisableUnsolicited | T::TimeSync | T::Restart | T::WriteDeadBands | T::GenericEmptyResponse(_) | T::FileRead | T::GetFileInfo | T::FileAuth | T::FileOpen | T::FileWriteBlock | T::FileClose => {}
+                T::UserRead
+                | T::PeriodicPoll
+                | T::StartupIntegrity
+                | T::AutoEventScan
+                | T::Command
+                | T::ClearRestartBit
+                | T::EnableUnsolicited
+                | T::DisableUnsolicited
+                | T::TimeSync
+                | T::Restart
+                | T::WriteDeadBands
+                | T::GenericEmptyResponse(_)
+                | T::FileRead
+                | T::GetFileInfo
+                | T::FileAuth
+                | T::FileOpen
+                | T::FileWriteBlock
+                | T::FileClose => {}
             }
         }
         native_to_ffi!(a, "TaskType", all, ffi::TaskType, 18, &[], &[]);
     }
     {
-        let all = [UpdateInfo::NoPoint, UpdateInfo::NoEvent, UpdateInfo::Created(7), UpdateInfo::Overflow { created: 9, discarded: 4 }];
+        let all = [
+            UpdateInfo::NoPoint,
+            UpdateInfo::NoEvent,
+            UpdateInfo::Created(7),
+            UpdateInfo::Overflow {
+                created: 9,
+                discarded: 4,
+            },
+        ];
         let mut t = Tally::new(a, "UpdateInfo", &[], &[]);
         for n in all {
             let f: ffi::UpdateInfo = n.into();
@@ -324,7 +609,16 @@ fn enums(a: &ShardArgs) {
                 _ => (0, 0),
             };
             if f.created() != c || f.discarded() != d {
-                viol(a, "field_lost", "UpdateInfo|ids", format!("{n:?} converted with created={} discarded={}", f.created(), f.discarded()));
+                viol(
+                    a,
+                    "field_lost",
+                    "UpdateInfo|ids",
+                    format!(
+                        "{n:?} converted with created={} discarded={}",
+                        f.created(),
+                        f.discarded()
+                    ),
+                );
             }
         }
         t.done(4);
@@ -333,12 +627,37 @@ fn enums(a: &ShardArgs) {
     attributes(a);
     // ---- both directions exist: identity
     round_trip!(a, "Variation", ffi::Variation, Variation);
-    round_trip!(a, "AppDecodeLevel", ffi::AppDecodeLevel, dnp3::decode::AppDecodeLevel);
-    round_trip!(a, "TransportDecodeLevel", ffi::TransportDecodeLevel, dnp3::decode::TransportDecodeLevel);
-    round_trip!(a, "LinkDecodeLevel", ffi::LinkDecodeLevel, dnp3::decode::LinkDecodeLevel);
-    round_trip!(a, "PhysDecodeLevel", ffi::PhysDecodeLevel, dnp3::decode::PhysDecodeLevel);
+    round_trip!(
+        a,
+        "AppDecodeLevel",
+        ffi::AppDecodeLevel,
+        dnp3::decode::AppDecodeLevel
+    );
+    round_trip!(
+        a,
+        "TransportDecodeLevel",
+        ffi::TransportDecodeLevel,
+        dnp3::decode::TransportDecodeLevel
+    );
+    round_trip!(
+        a,
+        "LinkDecodeLevel",
+        ffi::LinkDecodeLevel,
+        dnp3::decode::LinkDecodeLevel
+    );
+    round_trip!(
+        a,
+        "PhysDecodeLevel",
+        ffi::PhysDecodeLevel,
+        dnp3::decode::PhysDecodeLevel
+    );
     round_trip!(a, "CommandStatus", ffi::CommandStatus, CommandStatus);
-    round_trip!(a, "FunctionCode", ffi::FunctionCode, dnp3::app::FunctionCode);
+    round_trip!(
+        a,
+        "FunctionCode",
+        ffi::FunctionCode,
+        dnp3::app::FunctionCode
+    );
 }
 
 /// what a task error is called on the binding side (written from the meaning of the variants, not from the binding code)
@@ -349,7 +668,12 @@ fn task_error_name(e: &dnp3::master::TaskError) -> &'static str {
         // no usable connection
         T::Link(_) | T::Transport | T::NoConnection | T::Disabled => "noconnection",
         // a response arrived but could not be used
-        T::MalformedResponse(_) | T::UnexpectedResponseHeaders | T::NonFinWithoutCon | T::NeverReceivedFir | T::UnexpectedFir | T::MultiFragmentResponse => "badresponse",
+        T::MalformedResponse(_)
+        | T::UnexpectedResponseHeaders
+        | T::NonFinWithoutCon
+        | T::NeverReceivedFir
+        | T::UnexpectedFir
+        | T::MultiFragmentResponse => "badresponse",
         T::ResponseTimeout => "responsetimeout",
         T::WriteError => "writeerror",
         T::NoSuchAssociation(_) => "associationremoved",
@@ -394,7 +718,12 @@ fn errors(a: &ShardArgs) {
                 let f: ffi::$ffi = e.into();
                 out::eval(1);
                 if norm(&f) != task_error_name(&e) {
-                    viol(a, "name_mismatch", &format!("TaskError->{}|{}", stringify!($ffi), norm(&e)), format!("{e:?} is converted to {}::{f:?}", stringify!($ffi)));
+                    viol(
+                        a,
+                        "name_mismatch",
+                        &format!("TaskError->{}|{}", stringify!($ffi), norm(&e)),
+                        format!("{e:?} is converted to {}::{f:?}", stringify!($ffi)),
+                    );
                 } else {
                     out::count("variants_map_to_namesake", 1);
                 }
@@ -417,17 +746,33 @@ fn errors(a: &ShardArgs) {
         let mut cases: Vec<(CommandError, String)> = vec![];
         for e in all_task_errors() {
             cases.push((CommandError::Task(e), task_error_name(&e).into()));
-            cases.push((CommandError::Response(CommandResponseError::Request(e)), task_error_name(&e).into()));
+            cases.push((
+                CommandError::Response(CommandResponseError::Request(e)),
+                task_error_name(&e).into(),
+            ));
         }
-        cases.push((CommandError::Response(CommandResponseError::BadStatus(CommandStatus::Timeout)), "badstatus".into()));
-        for r in [CommandResponseError::HeaderCountMismatch, CommandResponseError::HeaderTypeMismatch, CommandResponseError::ObjectCountMismatch, CommandResponseError::ObjectValueMismatch] {
+        cases.push((
+            CommandError::Response(CommandResponseError::BadStatus(CommandStatus::Timeout)),
+            "badstatus".into(),
+        ));
+        for r in [
+            CommandResponseError::HeaderCountMismatch,
+            CommandResponseError::HeaderTypeMismatch,
+            CommandResponseError::ObjectCountMismatch,
+            CommandResponseError::ObjectValueMismatch,
+        ] {
             cases.push((CommandError::Response(r), "headermismatch".into()));
         }
         for (e, want) in cases {
             let f: ffi::CommandError = e.into();
             out::eval(1);
             if norm(&f) != want {
-                viol(a, "name_mismatch", &format!("CommandError|{want}"), format!("{e:?} is converted to {f:?}"));
+                viol(
+                    a,
+                    "name_mismatch",
+                    &format!("CommandError|{want}"),
+                    format!("{e:?} is converted to {f:?}"),
+                );
             } else {
                 out::count("variants_map_to_namesake", 1);
             }
@@ -436,19 +781,36 @@ fn errors(a: &ShardArgs) {
     }
     // time synchronisation errors
     {
-        let mut cases: Vec<(TimeSyncError, String)> = all_task_errors().into_iter().map(|e| (TimeSyncError::Task(e), task_error_name(&e).to_string())).collect();
+        let mut cases: Vec<(TimeSyncError, String)> = all_task_errors()
+            .into_iter()
+            .map(|e| (TimeSyncError::Task(e), task_error_name(&e).to_string()))
+            .collect();
         cases.push((TimeSyncError::ClockRollback, "clockrollback".into()));
         cases.push((TimeSyncError::SystemTimeNotUnix, "systemtimenotunix".into()));
-        cases.push((TimeSyncError::BadOutstationTimeDelay(9), "badoutstationtimedelay".into()));
+        cases.push((
+            TimeSyncError::BadOutstationTimeDelay(9),
+            "badoutstationtimedelay".into(),
+        ));
         cases.push((TimeSyncError::Overflow, "overflow".into()));
         cases.push((TimeSyncError::StillNeedsTime, "stillneedstime".into()));
-        cases.push((TimeSyncError::SystemTimeNotAvailable, "systemtimenotavailable".into()));
-        cases.push((TimeSyncError::IinError(dnp3::app::Iin2::new(4)), "iinerror".into()));
+        cases.push((
+            TimeSyncError::SystemTimeNotAvailable,
+            "systemtimenotavailable".into(),
+        ));
+        cases.push((
+            TimeSyncError::IinError(dnp3::app::Iin2::new(4)),
+            "iinerror".into(),
+        ));
         for (e, want) in cases {
             let f: ffi::TimeSyncError = e.into();
             out::eval(1);
             if norm(&f) != want {
-                viol(a, "name_mismatch", &format!("TimeSyncError|{want}"), format!("{e:?} is converted to {f:?}"));
+                viol(
+                    a,
+                    "name_mismatch",
+                    &format!("TimeSyncError|{want}"),
+                    format!("{e:?} is converted to {f:?}"),
+                );
             } else {
                 out::count("variants_map_to_namesake", 1);
             }
@@ -457,10 +819,16 @@ fn errors(a: &ShardArgs) {
     }
     // file errors and file types
     {
-        let mut cases: Vec<(FileError, String)> = all_task_errors().into_iter().map(|e| (FileError::TaskError(e), task_error_name(&e).to_string())).collect();
+        let mut cases: Vec<(FileError, String)> = all_task_errors()
+            .into_iter()
+            .map(|e| (FileError::TaskError(e), task_error_name(&e).to_string()))
+            .collect();
         for (e, n) in [
             (FileError::BadResponse, "badresponse"),
-            (FileError::BadStatus(dnp3::app::FileStatus::FileLocked), "badstatus"),
+            (
+                FileError::BadStatus(dnp3::app::FileStatus::FileLocked),
+                "badstatus",
+            ),
             (FileError::WrongHandle, "wronghandle"),
             (FileError::NoPermission, "nopermission"),
             (FileError::BadBlockNum, "badblocknum"),
@@ -473,16 +841,30 @@ fn errors(a: &ShardArgs) {
             let f: ffi::FileError = e.into();
             out::eval(1);
             if norm(&f) != want {
-                viol(a, "name_mismatch", &format!("FileError|{want}"), format!("{e:?} is converted to {f:?}"));
+                viol(
+                    a,
+                    "name_mismatch",
+                    &format!("FileError|{want}"),
+                    format!("{e:?} is converted to {f:?}"),
+                );
             } else {
                 out::count("variants_map_to_namesake", 1);
             }
         }
-        for (t, want) in [(dnp3::app::FileType::Directory, "directory"), (dnp3::app::FileType::File, "simple"), (dnp3::app::FileType::Other(9), "other")] {
+        for (t, want) in [
+            (dnp3::app::FileType::Directory, "directory"),
+            (dnp3::app::FileType::File, "simple"),
+            (dnp3::app::FileType::Other(9), "other"),
+        ] {
             let f: ffi::FileType = t.into();
             out::eval(1);
             if norm(&f) != want {
-                viol(a, "name_mismatch", &format!("FileType|{want}"), format!("{t:?} is converted to {f:?}"));
+                viol(
+                    a,
+                    "name_mismatch",
+                    &format!("FileType|{want}"),
+                    format!("{t:?} is converted to {f:?}"),
+                );
             } else {
                 out::count("variants_map_to_namesake", 1);
             }
@@ -495,30 +877,62 @@ fn errors(a: &ShardArgs) {
             let f: ffi::EmptyResponseError = WriteError::Task(e).into();
             out::eval(1);
             if norm(&f) != task_error_name(&e) {
-                viol(a, "name_mismatch", &format!("WriteError|{}", task_error_name(&e)), format!("WriteError::Task({e:?}) is converted to {f:?}"));
+                viol(
+                    a,
+                    "name_mismatch",
+                    &format!("WriteError|{}", task_error_name(&e)),
+                    format!("WriteError::Task({e:?}) is converted to {f:?}"),
+                );
             } else {
                 out::count("variants_map_to_namesake", 1);
             }
         }
         let f: ffi::EmptyResponseError = WriteError::IinError(dnp3::app::Iin2::new(4)).into();
         if norm(&f) != "rejectedbyiin2" {
-            viol(a, "name_mismatch", "WriteError|iinerror", format!("WriteError::IinError is converted to {f:?}"));
+            viol(
+                a,
+                "name_mismatch",
+                "WriteError|iinerror",
+                format!("WriteError::IinError is converted to {f:?}"),
+            );
         }
         let addr = dnp3::link::EndpointAddress::try_new(7).unwrap();
-        for (e, want) in [(AssociationError::Shutdown, "masteralreadyshutdown"), (AssociationError::DuplicateAddress(addr), "associationduplicateaddress")] {
+        for (e, want) in [
+            (AssociationError::Shutdown, "masteralreadyshutdown"),
+            (
+                AssociationError::DuplicateAddress(addr),
+                "associationduplicateaddress",
+            ),
+        ] {
             let f: ffi::ParamError = e.into();
             out::eval(1);
             if norm(&f) != want {
-                viol(a, "name_mismatch", &format!("AssociationError|{want}"), format!("{e:?} is converted to {f:?}"));
+                viol(
+                    a,
+                    "name_mismatch",
+                    &format!("AssociationError|{want}"),
+                    format!("{e:?} is converted to {f:?}"),
+                );
             } else {
                 out::count("variants_map_to_namesake", 1);
             }
         }
-        for (e, want) in [(PollError::Shutdown, "masteralreadyshutdown"), (PollError::NoSuchAssociation(addr), "associationdoesnotexist")] {
+        for (e, want) in [
+            (PollError::Shutdown, "masteralreadyshutdown"),
+            (
+                PollError::NoSuchAssociation(addr),
+                "associationdoesnotexist",
+            ),
+        ] {
             let f: ffi::ParamError = e.into();
             out::eval(1);
             if norm(&f) != want {
-                viol(a, "name_mismatch", &format!("PollError|{want}"), format!("{e:?} is converted to {f:?}"));
+                viol(
+                    a,
+                    "name_mismatch",
+                    &format!("PollError|{want}"),
+                    format!("{e:?} is converted to {f:?}"),
+                );
             } else {
                 out::count("variants_map_to_namesake", 1);
             }
@@ -543,8 +957,18 @@ fn attributes(a: &ShardArgs) {
             native_to_ffi!(a, $name, all, $ffi, n, &[], &[]);
         }};
     }
-    attr_enum!("VariationListAttr", VariationListAttr, ffi::VariationListAttr, [ListOfVariations]);
-    attr_enum!("OctetStringAttr", OctetStringAttr, ffi::OctetStringAttr, [ConfigDigest]);
+    attr_enum!(
+        "VariationListAttr",
+        VariationListAttr,
+        ffi::VariationListAttr,
+        [ListOfVariations]
+    );
+    attr_enum!(
+        "OctetStringAttr",
+        OctetStringAttr,
+        ffi::OctetStringAttr,
+        [ConfigDigest]
+    );
     attr_enum!(
         "StringAttr",
         StringAttr,
@@ -600,18 +1024,45 @@ fn attributes(a: &ShardArgs) {
             MaxRxFragmentSize
         ]
     );
-    attr_enum!("FloatAttr", FloatAttr, ffi::FloatAttr, [DeviceLocationAltitude, DeviceLocationLongitude, DeviceLocationLatitude]);
+    attr_enum!(
+        "FloatAttr",
+        FloatAttr,
+        ffi::FloatAttr,
+        [
+            DeviceLocationAltitude,
+            DeviceLocationLongitude,
+            DeviceLocationLatitude
+        ]
+    );
     attr_enum!(
         "BoolAttr",
         BoolAttr,
         ffi::BoolAttr,
-        [SupportsAnalogOutputEvents, SupportsBinaryOutputEvents, SupportsFrozenCounterEvents, SupportsFrozenCounters, SupportsCounterEvents, SupportsFrozenAnalogInputs, SupportsAnalogInputEvents, SupportsDoubleBitBinaryInputEvents, SupportsBinaryInputEvents]
+        [
+            SupportsAnalogOutputEvents,
+            SupportsBinaryOutputEvents,
+            SupportsFrozenCounterEvents,
+            SupportsFrozenCounters,
+            SupportsCounterEvents,
+            SupportsFrozenAnalogInputs,
+            SupportsAnalogInputEvents,
+            SupportsDoubleBitBinaryInputEvents,
+            SupportsBinaryInputEvents
+        ]
     );
-    attr_enum!("TimeAttr", TimeAttr, ffi::TimeAttr, [ConfigBuildDate, ConfigLastChangeDate]);
+    attr_enum!(
+        "TimeAttr",
+        TimeAttr,
+        ffi::TimeAttr,
+        [ConfigBuildDate, ConfigLastChangeDate]
+    );
 }
 
 fn time_of(q: c_int, v: u64) -> ffi::Timestamp {
-    ffi::Timestamp { value: v, quality: q }
+    ffi::Timestamp {
+        value: v,
+        quality: q,
+    }
 }
 
 fn structs(a: &ShardArgs) {
@@ -622,7 +1073,15 @@ fn structs(a: &ShardArgs) {
         let back: ffi::Flags = n.into();
         out::eval(1);
         if n.value != v || back.value != v {
-            viol(a, "field_lost", "Flags", format!("flag octet {v:#04x} converted to {:#04x} and back to {:#04x}", n.value, back.value));
+            viol(
+                a,
+                "field_lost",
+                "Flags",
+                format!(
+                    "flag octet {v:#04x} converted to {:#04x} and back to {:#04x}",
+                    n.value, back.value
+                ),
+            );
         } else {
             out::count("flags_ok", 1);
         }
@@ -630,7 +1089,13 @@ fn structs(a: &ShardArgs) {
     // time: three qualities x values
     let qualities = variants::<ffi::TimeQuality>();
     for q in &qualities {
-        for v in [0u64, 1, 0x0000_FFFF_FFFF_FFFF, 1_600_000_000_000, r.u64() & 0x0000_FFFF_FFFF_FFFF] {
+        for v in [
+            0u64,
+            1,
+            0x0000_FFFF_FFFF_FFFF,
+            1_600_000_000_000,
+            r.u64() & 0x0000_FFFF_FFFF_FFFF,
+        ] {
             let f = time_of(q.clone().into(), v);
             let n: Option<Time> = (&f).into();
             let want = match q {
@@ -640,30 +1105,57 @@ fn structs(a: &ShardArgs) {
             };
             out::eval(1);
             if n != want {
-                viol(a, "field_lost", &format!("Timestamp|{}", norm(q)), format!("time ({q:?}, {v}) converted to {n:?}"));
+                viol(
+                    a,
+                    "field_lost",
+                    &format!("Timestamp|{}", norm(q)),
+                    format!("time ({q:?}, {v}) converted to {n:?}"),
+                );
             } else {
                 out::count("timestamps_ok", 1);
             }
             let back: ffi::Timestamp = n.into();
             if back.quality() != *q || (n.is_some() && back.value() != v) {
-                viol(a, "round_trip", &format!("Timestamp|{}", norm(q)), format!("time ({q:?}, {v}) -> {n:?} -> ({:?}, {})", back.quality(), back.value()));
+                viol(
+                    a,
+                    "round_trip",
+                    &format!("Timestamp|{}", norm(q)),
+                    format!(
+                        "time ({q:?}, {v}) -> {n:?} -> ({:?}, {})",
+                        back.quality(),
+                        back.value()
+                    ),
+                );
             } else {
                 out::count("round_trips_ok", 1);
             }
         }
     }
     if qualities.len() != 3 {
-        viol(a, "enumeration_incomplete", "TimeQuality", format!("{} time qualities", qualities.len()));
+        viol(
+            a,
+            "enumeration_incomplete",
+            "TimeQuality",
+            format!("{} time qualities", qualities.len()),
+        );
     }
     // update options
     for us in [false, true] {
         for m in variants::<ffi::EventMode>() {
-            let f = ffi::UpdateOptions { update_static: us, event_mode: m.clone().into() };
+            let f = ffi::UpdateOptions {
+                update_static: us,
+                event_mode: m.clone().into(),
+            };
             let n: UpdateOptions = f.into();
             let txt = format!("{n:?}").to_lowercase();
             out::eval(1);
             if !txt.contains(&format!("update_static: {us}")) || !txt.contains(&norm(&m)) {
-                viol(a, "field_lost", &format!("UpdateOptions|{}", norm(&m)), format!("update options (static={us}, {m:?}) converted to {n:?}"));
+                viol(
+                    a,
+                    "field_lost",
+                    &format!("UpdateOptions|{}", norm(&m)),
+                    format!("update options (static={us}, {m:?}) converted to {n:?}"),
+                );
             } else {
                 out::count("update_options_ok", 1);
             }
@@ -699,15 +1191,44 @@ fn structs(a: &ShardArgs) {
             }};
         }
         meas!("BinaryInput", BinaryInput, BinaryInput, r.bool(), |v| v);
-        meas!("BinaryOutputStatus", BinaryOutputStatus, BinaryOutputStatus, r.bool(), |v| v);
+        meas!(
+            "BinaryOutputStatus",
+            BinaryOutputStatus,
+            BinaryOutputStatus,
+            r.bool(),
+            |v| v
+        );
         meas!("Counter", Counter, Counter, r.u64() as u32, |v| v);
-        meas!("FrozenCounter", FrozenCounter, FrozenCounter, r.u64() as u32, |v| v);
-        meas!("AnalogInput", AnalogInput, AnalogInput, (r.u64() as i64 as f64) / 7.0, |v| v);
-        meas!("AnalogOutputStatus", AnalogOutputStatus, AnalogOutputStatus, (r.u64() as i64 as f64) / 3.0, |v| v);
+        meas!(
+            "FrozenCounter",
+            FrozenCounter,
+            FrozenCounter,
+            r.u64() as u32,
+            |v| v
+        );
+        meas!(
+            "AnalogInput",
+            AnalogInput,
+            AnalogInput,
+            (r.u64() as i64 as f64) / 7.0,
+            |v| v
+        );
+        meas!(
+            "AnalogOutputStatus",
+            AnalogOutputStatus,
+            AnalogOutputStatus,
+            (r.u64() as i64 as f64) / 3.0,
+            |v| v
+        );
         {
             let dbs = variants::<ffi::DoubleBit>();
             let d = r.pick(&dbs).clone();
-            let f = ffi::DoubleBitBinaryInput { index: idx, value: d.clone().into(), flags: fl.clone(), time: t.clone() };
+            let f = ffi::DoubleBitBinaryInput {
+                index: idx,
+                value: d.clone().into(),
+                flags: fl.clone(),
+                time: t.clone(),
+            };
             let n: DoubleBitBinaryInput = f.into();
             out::eval(1);
             if norm(&n.value) != norm(&d) || n.flags.value != flags || n.time != want_time {
@@ -717,7 +1238,12 @@ fn structs(a: &ShardArgs) {
             }
             let back = ffi::DoubleBitBinaryInput::new(idx, n);
             if back.index != idx || back.value() != d {
-                viol(a, "field_lost", "DoubleBitBinaryInput(out)", format!("double-bit {n:?} converted to {:?}", back.value()));
+                viol(
+                    a,
+                    "field_lost",
+                    "DoubleBitBinaryInput(out)",
+                    format!("double-bit {n:?} converted to {:?}", back.value()),
+                );
             } else {
                 out::count("measurements_out_ok", 1);
             }
@@ -726,17 +1252,41 @@ fn structs(a: &ShardArgs) {
     // control field, IIN bits, headers
     for bits in 0..=255u8 {
         let i1: ffi::Iin1 = dnp3::app::Iin1::new(bits).into();
-        let got1 = (i1.broadcast as u8) | (i1.class_1_events as u8) << 1 | (i1.class_2_events as u8) << 2 | (i1.class_3_events as u8) << 3 | (i1.need_time as u8) << 4 | (i1.local_control as u8) << 5 | (i1.device_trouble as u8) << 6 | (i1.device_restart as u8) << 7;
+        let got1 = (i1.broadcast as u8)
+            | (i1.class_1_events as u8) << 1
+            | (i1.class_2_events as u8) << 2
+            | (i1.class_3_events as u8) << 3
+            | (i1.need_time as u8) << 4
+            | (i1.local_control as u8) << 5
+            | (i1.device_trouble as u8) << 6
+            | (i1.device_restart as u8) << 7;
         let i2: ffi::Iin2 = dnp3::app::Iin2::new(bits).into();
-        let got2 = (i2.no_func_code_support as u8) | (i2.object_unknown as u8) << 1 | (i2.parameter_error as u8) << 2 | (i2.event_buffer_overflow as u8) << 3 | (i2.already_executing as u8) << 4 | (i2.config_corrupt as u8) << 5 | (i2.reserved_2 as u8) << 6 | (i2.reserved_1 as u8) << 7;
+        let got2 = (i2.no_func_code_support as u8)
+            | (i2.object_unknown as u8) << 1
+            | (i2.parameter_error as u8) << 2
+            | (i2.event_buffer_overflow as u8) << 3
+            | (i2.already_executing as u8) << 4
+            | (i2.config_corrupt as u8) << 5
+            | (i2.reserved_2 as u8) << 6
+            | (i2.reserved_1 as u8) << 7;
         out::eval(2);
         if got1 != bits {
-            viol(a, "field_lost", "Iin1", format!("IIN1 {bits:#04x}: the named bits read back as {got1:#04x}"));
+            viol(
+                a,
+                "field_lost",
+                "Iin1",
+                format!("IIN1 {bits:#04x}: the named bits read back as {got1:#04x}"),
+            );
         } else {
             out::count("iin_ok", 1);
         }
         if got2 != bits {
-            viol(a, "field_lost", "Iin2", format!("IIN2 {bits:#04x}: the named bits read back as {got2:#04x}"));
+            viol(
+                a,
+                "field_lost",
+                "Iin2",
+                format!("IIN2 {bits:#04x}: the named bits read back as {got2:#04x}"),
+            );
         } else {
             out::count("iin_ok", 1);
         }
@@ -748,29 +1298,62 @@ fn structs(a: &ShardArgs) {
         let back: dnp3::outstation::database::EventBufferConfig = (&f).into();
         out::eval(1);
         if format!("{back:?}") != format!("{n:?}") {
-            viol(a, "round_trip", "EventBufferConfig", format!("{n:?} -> binding -> {back:?}"));
+            viol(
+                a,
+                "round_trip",
+                "EventBufferConfig",
+                format!("{n:?} -> binding -> {back:?}"),
+            );
         } else {
             out::count("round_trips_ok", 1);
         }
     }
     // restart delay
-    for (n, name) in [(None, "notsupported"), (Some(dnp3::outstation::RestartDelay::Seconds(7)), "seconds"), (Some(dnp3::outstation::RestartDelay::Milliseconds(9)), "milliseconds")] {
+    for (n, name) in [
+        (None, "notsupported"),
+        (Some(dnp3::outstation::RestartDelay::Seconds(7)), "seconds"),
+        (
+            Some(dnp3::outstation::RestartDelay::Milliseconds(9)),
+            "milliseconds",
+        ),
+    ] {
         let f: ffi::RestartDelay = n.into();
         let back: Option<dnp3::outstation::RestartDelay> = f.clone().into();
         out::eval(1);
         if norm(&f.restart_type()) != name || back != n {
-            viol(a, "round_trip", &format!("RestartDelay|{name}"), format!("{n:?} -> {:?}/{} -> {back:?}", f.restart_type(), f.value()));
+            viol(
+                a,
+                "round_trip",
+                &format!("RestartDelay|{name}"),
+                format!("{n:?} -> {:?}/{} -> {back:?}", f.restart_type(), f.value()),
+            );
         } else {
             out::count("round_trips_ok", 1);
         }
     }
     // application IIN: 16 combinations
     for bits in 0..16u8 {
-        let f = ffi::ApplicationIin { need_time: bits & 1 != 0, local_control: bits & 2 != 0, device_trouble: bits & 4 != 0, config_corrupt: bits & 8 != 0 };
+        let f = ffi::ApplicationIin {
+            need_time: bits & 1 != 0,
+            local_control: bits & 2 != 0,
+            device_trouble: bits & 4 != 0,
+            config_corrupt: bits & 8 != 0,
+        };
         let n: dnp3::outstation::ApplicationIin = f.into();
         out::eval(1);
-        if (n.need_time, n.local_control, n.device_trouble, n.config_corrupt) != (bits & 1 != 0, bits & 2 != 0, bits & 4 != 0, bits & 8 != 0) {
-            viol(a, "field_lost", "ApplicationIin", format!("application IIN bits {bits:#06b} converted to {n:?}"));
+        if (
+            n.need_time,
+            n.local_control,
+            n.device_trouble,
+            n.config_corrupt,
+        ) != (bits & 1 != 0, bits & 2 != 0, bits & 4 != 0, bits & 8 != 0)
+        {
+            viol(
+                a,
+                "field_lost",
+                "ApplicationIin",
+                format!("application IIN bits {bits:#06b} converted to {n:?}"),
+            );
         } else {
             out::count("application_iin_ok", 1);
         }
@@ -778,12 +1361,35 @@ fn structs(a: &ShardArgs) {
     // class zero configuration: one field at a time
     for k in 0..8 {
         let b = |i: usize| i == k;
-        let f = ffi::ClassZeroConfig { binary: b(0), double_bit_binary: b(1), binary_output_status: b(2), counter: b(3), frozen_counter: b(4), analog: b(5), analog_output_status: b(6), octet_string: b(7) };
+        let f = ffi::ClassZeroConfig {
+            binary: b(0),
+            double_bit_binary: b(1),
+            binary_output_status: b(2),
+            counter: b(3),
+            frozen_counter: b(4),
+            analog: b(5),
+            analog_output_status: b(6),
+            octet_string: b(7),
+        };
         let n: dnp3::outstation::database::ClassZeroConfig = f.into();
-        let got = [n.binary, n.double_bit_binary, n.binary_output_status, n.counter, n.frozen_counter, n.analog, n.analog_output_status, n.octet_string];
+        let got = [
+            n.binary,
+            n.double_bit_binary,
+            n.binary_output_status,
+            n.counter,
+            n.frozen_counter,
+            n.analog,
+            n.analog_output_status,
+            n.octet_string,
+        ];
         out::eval(1);
         if (0..8).any(|i| got[i] != b(i)) {
-            viol(a, "field_lost", &format!("ClassZeroConfig|{k}"), format!("class zero field {k} converted to {n:?}"));
+            viol(
+                a,
+                "field_lost",
+                &format!("ClassZeroConfig|{k}"),
+                format!("class zero field {k} converted to {n:?}"),
+            );
         } else {
             out::count("class_zero_ok", 1);
         }
@@ -798,7 +1404,15 @@ fn structs(a: &ShardArgs) {
                     let c: $ncfg = f.into();
                     out::eval(1);
                     if norm(&c.s_var) != norm(&s) || norm(&c.e_var) != norm(&e) {
-                        viol(a, "name_mismatch", &format!("{}|{}|{}", $name, norm(&s), norm(&e)), format!("{}: ({s:?}, {e:?}) converted to ({:?}, {:?})", $name, c.s_var, c.e_var));
+                        viol(
+                            a,
+                            "name_mismatch",
+                            &format!("{}|{}|{}", $name, norm(&s), norm(&e)),
+                            format!(
+                                "{}: ({s:?}, {e:?}) converted to ({:?}, {:?})",
+                                $name, c.s_var, c.e_var
+                            ),
+                        );
                     } else {
                         out::count("variants_map_to_namesake", 1);
                     }
@@ -809,25 +1423,145 @@ fn structs(a: &ShardArgs) {
             out::distinct(concat!("conv/", $name));
         }};
     }
-    cfgs!("BinaryInputConfig", BinaryInputConfig, BinaryInputConfig, StaticBinaryInputVariation, EventBinaryInputVariation, |s: ffi::StaticBinaryInputVariation, e: ffi::EventBinaryInputVariation| ffi::BinaryInputConfig { static_variation: s.into(), event_variation: e.into() });
-    cfgs!("DoubleBitBinaryInputConfig", DoubleBitBinaryInputConfig, DoubleBitBinaryInputConfig, StaticDoubleBitBinaryInputVariation, EventDoubleBitBinaryInputVariation, |s: ffi::StaticDoubleBitBinaryInputVariation, e: ffi::EventDoubleBitBinaryInputVariation| ffi::DoubleBitBinaryInputConfig { static_variation: s.into(), event_variation: e.into() });
-    cfgs!("BinaryOutputStatusConfig", BinaryOutputStatusConfig, BinaryOutputStatusConfig, StaticBinaryOutputStatusVariation, EventBinaryOutputStatusVariation, |s: ffi::StaticBinaryOutputStatusVariation, e: ffi::EventBinaryOutputStatusVariation| ffi::BinaryOutputStatusConfig { static_variation: s.into(), event_variation: e.into() });
+    cfgs!(
+        "BinaryInputConfig",
+        BinaryInputConfig,
+        BinaryInputConfig,
+        StaticBinaryInputVariation,
+        EventBinaryInputVariation,
+        |s: ffi::StaticBinaryInputVariation, e: ffi::EventBinaryInputVariation| {
+            ffi::BinaryInputConfig {
+                static_variation: s.into(),
+                event_variation: e.into(),
+            }
+        }
+    );
+    cfgs!(
+        "DoubleBitBinaryInputConfig",
+        DoubleBitBinaryInputConfig,
+        DoubleBitBinaryInputConfig,
+        StaticDoubleBitBinaryInputVariation,
+        EventDoubleBitBinaryInputVariation,
+        |s: ffi::StaticDoubleBitBinaryInputVariation,
+         e: ffi::EventDoubleBitBinaryInputVariation| ffi::DoubleBitBinaryInputConfig {
+            static_variation: s.into(),
+            event_variation: e.into()
+        }
+    );
+    cfgs!(
+        "BinaryOutputStatusConfig",
+        BinaryOutputStatusConfig,
+        BinaryOutputStatusConfig,
+        StaticBinaryOutputStatusVariation,
+        EventBinaryOutputStatusVariation,
+        |s: ffi::StaticBinaryOutputStatusVariation, e: ffi::EventBinaryOutputStatusVariation| {
+            ffi::BinaryOutputStatusConfig {
+                static_variation: s.into(),
+                event_variation: e.into(),
+            }
+        }
+    );
     for db in [0u32, 1, 77, u32::MAX] {
-        cfgs!("CounterConfig", CounterConfig, CounterConfig, StaticCounterVariation, EventCounterVariation, |s: ffi::StaticCounterVariation, e: ffi::EventCounterVariation| ffi::CounterConfig { static_variation: s.into(), event_variation: e.into(), deadband: db });
-        cfgs!("FrozenCounterConfig", FrozenCounterConfig, FrozenCounterConfig, StaticFrozenCounterVariation, EventFrozenCounterVariation, |s: ffi::StaticFrozenCounterVariation, e: ffi::EventFrozenCounterVariation| ffi::FrozenCounterConfig { static_variation: s.into(), event_variation: e.into(), deadband: db });
-        let c: CounterConfig = ffi::CounterConfig { static_variation: ffi::StaticCounterVariation::Group20Var1.into(), event_variation: ffi::EventCounterVariation::Group22Var1.into(), deadband: db }.into();
-        let fc: FrozenCounterConfig = ffi::FrozenCounterConfig { static_variation: ffi::StaticFrozenCounterVariation::Group21Var1.into(), event_variation: ffi::EventFrozenCounterVariation::Group23Var1.into(), deadband: db }.into();
+        cfgs!(
+            "CounterConfig",
+            CounterConfig,
+            CounterConfig,
+            StaticCounterVariation,
+            EventCounterVariation,
+            |s: ffi::StaticCounterVariation, e: ffi::EventCounterVariation| ffi::CounterConfig {
+                static_variation: s.into(),
+                event_variation: e.into(),
+                deadband: db
+            }
+        );
+        cfgs!(
+            "FrozenCounterConfig",
+            FrozenCounterConfig,
+            FrozenCounterConfig,
+            StaticFrozenCounterVariation,
+            EventFrozenCounterVariation,
+            |s: ffi::StaticFrozenCounterVariation, e: ffi::EventFrozenCounterVariation| {
+                ffi::FrozenCounterConfig {
+                    static_variation: s.into(),
+                    event_variation: e.into(),
+                    deadband: db,
+                }
+            }
+        );
+        let c: CounterConfig = ffi::CounterConfig {
+            static_variation: ffi::StaticCounterVariation::Group20Var1.into(),
+            event_variation: ffi::EventCounterVariation::Group22Var1.into(),
+            deadband: db,
+        }
+        .into();
+        let fc: FrozenCounterConfig = ffi::FrozenCounterConfig {
+            static_variation: ffi::StaticFrozenCounterVariation::Group21Var1.into(),
+            event_variation: ffi::EventFrozenCounterVariation::Group23Var1.into(),
+            deadband: db,
+        }
+        .into();
         if c.deadband != db || fc.deadband != db {
-            viol(a, "field_lost", "CounterConfig|deadband", format!("dead-band {db} converted to {} / {}", c.deadband, fc.deadband));
+            viol(
+                a,
+                "field_lost",
+                "CounterConfig|deadband",
+                format!(
+                    "dead-band {db} converted to {} / {}",
+                    c.deadband, fc.deadband
+                ),
+            );
         }
     }
     for db in [0.0f64, 0.5, 1e300, -1.0] {
-        cfgs!("AnalogInputConfig", AnalogInputConfig, AnalogInputConfig, StaticAnalogInputVariation, EventAnalogInputVariation, |s: ffi::StaticAnalogInputVariation, e: ffi::EventAnalogInputVariation| ffi::AnalogInputConfig { static_variation: s.into(), event_variation: e.into(), deadband: db });
-        cfgs!("AnalogOutputStatusConfig", AnalogOutputStatusConfig, AnalogOutputStatusConfig, StaticAnalogOutputStatusVariation, EventAnalogOutputStatusVariation, |s: ffi::StaticAnalogOutputStatusVariation, e: ffi::EventAnalogOutputStatusVariation| ffi::AnalogOutputStatusConfig { static_variation: s.into(), event_variation: e.into(), deadband: db });
-        let c: AnalogInputConfig = ffi::AnalogInputConfig { static_variation: ffi::StaticAnalogInputVariation::Group30Var1.into(), event_variation: ffi::EventAnalogInputVariation::Group32Var1.into(), deadband: db }.into();
-        let oc: AnalogOutputStatusConfig = ffi::AnalogOutputStatusConfig { static_variation: ffi::StaticAnalogOutputStatusVariation::Group40Var1.into(), event_variation: ffi::EventAnalogOutputStatusVariation::Group42Var1.into(), deadband: db }.into();
+        cfgs!(
+            "AnalogInputConfig",
+            AnalogInputConfig,
+            AnalogInputConfig,
+            StaticAnalogInputVariation,
+            EventAnalogInputVariation,
+            |s: ffi::StaticAnalogInputVariation, e: ffi::EventAnalogInputVariation| {
+                ffi::AnalogInputConfig {
+                    static_variation: s.into(),
+                    event_variation: e.into(),
+                    deadband: db,
+                }
+            }
+        );
+        cfgs!(
+            "AnalogOutputStatusConfig",
+            AnalogOutputStatusConfig,
+            AnalogOutputStatusConfig,
+            StaticAnalogOutputStatusVariation,
+            EventAnalogOutputStatusVariation,
+            |s: ffi::StaticAnalogOutputStatusVariation,
+             e: ffi::EventAnalogOutputStatusVariation| ffi::AnalogOutputStatusConfig {
+                static_variation: s.into(),
+                event_variation: e.into(),
+                deadband: db
+            }
+        );
+        let c: AnalogInputConfig = ffi::AnalogInputConfig {
+            static_variation: ffi::StaticAnalogInputVariation::Group30Var1.into(),
+            event_variation: ffi::EventAnalogInputVariation::Group32Var1.into(),
+            deadband: db,
+        }
+        .into();
+        let oc: AnalogOutputStatusConfig = ffi::AnalogOutputStatusConfig {
+            static_variation: ffi::StaticAnalogOutputStatusVariation::Group40Var1.into(),
+            event_variation: ffi::EventAnalogOutputStatusVariation::Group42Var1.into(),
+            deadband: db,
+        }
+        .into();
         if c.deadband != db || oc.deadband != db {
-            viol(a, "field_lost", "AnalogInputConfig|deadband", format!("dead-band {db} converted to {} / {}", c.deadband, oc.deadband));
+            viol(
+                a,
+                "field_lost",
+                "AnalogInputConfig|deadband",
+                format!(
+                    "dead-band {db} converted to {} / {}",
+                    c.deadband, oc.deadband
+                ),
+            );
         }
     }
     more_structs(a, &mut r);
@@ -835,19 +1569,47 @@ fn structs(a: &ShardArgs) {
     {
         use dnp3::app::{PermissionSet, Permissions};
         for k in 0..8u8 {
-            let set = |x: u8| PermissionSet { execute: x & 1 != 0, write: x & 2 != 0, read: x & 4 != 0 };
-            let n = Permissions { world: set(k), group: set(k.wrapping_add(3) & 7), owner: set(k.wrapping_add(5) & 7) };
+            let set = |x: u8| PermissionSet {
+                execute: x & 1 != 0,
+                write: x & 2 != 0,
+                read: x & 4 != 0,
+            };
+            let n = Permissions {
+                world: set(k),
+                group: set(k.wrapping_add(3) & 7),
+                owner: set(k.wrapping_add(5) & 7),
+            };
             let f: ffi::Permissions = n.into();
-            let got = |p: &ffi::PermissionSet| (p.execute as u8) | (p.write as u8) << 1 | (p.read as u8) << 2;
+            let got = |p: &ffi::PermissionSet| {
+                (p.execute as u8) | (p.write as u8) << 1 | (p.read as u8) << 2
+            };
             out::eval(1);
-            if got(&f.world) != k || got(&f.group) != (k.wrapping_add(3) & 7) || got(&f.owner) != (k.wrapping_add(5) & 7) {
-                viol(a, "field_lost", "Permissions(out)", format!("{n:?} converted to world={:03b} group={:03b} owner={:03b}", got(&f.world), got(&f.group), got(&f.owner)));
+            if got(&f.world) != k
+                || got(&f.group) != (k.wrapping_add(3) & 7)
+                || got(&f.owner) != (k.wrapping_add(5) & 7)
+            {
+                viol(
+                    a,
+                    "field_lost",
+                    "Permissions(out)",
+                    format!(
+                        "{n:?} converted to world={:03b} group={:03b} owner={:03b}",
+                        got(&f.world),
+                        got(&f.group),
+                        got(&f.owner)
+                    ),
+                );
             } else {
                 out::count("permissions_ok", 1);
             }
             let back: Permissions = f.into();
             if back != n {
-                viol(a, "round_trip", "Permissions", format!("{n:?} -> binding -> {back:?}"));
+                viol(
+                    a,
+                    "round_trip",
+                    "Permissions",
+                    format!("{n:?} -> binding -> {back:?}"),
+                );
             } else {
                 out::count("round_trips_ok", 1);
             }
@@ -856,15 +1618,27 @@ fn structs(a: &ShardArgs) {
     // CROB
     for _ in 0..300 {
         let code = dnp3::verif::util::control_code_from(r.u8());
-        if matches!(code.tcc, TripCloseCode::Unknown(_)) || matches!(code.op_type, OpType::Unknown(_)) {
+        if matches!(code.tcc, TripCloseCode::Unknown(_))
+            || matches!(code.op_type, OpType::Unknown(_))
+        {
             continue;
         }
         let n = Group12Var1::new(code, r.u8(), r.u64() as u32, r.u64() as u32);
         let f: ffi::Group12Var1 = n.into();
         let back: Group12Var1 = f.into();
         out::eval(1);
-        if dnp3::verif::util::control_code_as_u8(back.code) != dnp3::verif::util::control_code_as_u8(n.code) || back.count != n.count || back.on_time != n.on_time || back.off_time != n.off_time {
-            viol(a, "round_trip", "Group12Var1", format!("{n:?} -> binding -> {back:?}"));
+        if dnp3::verif::util::control_code_as_u8(back.code)
+            != dnp3::verif::util::control_code_as_u8(n.code)
+            || back.count != n.count
+            || back.on_time != n.on_time
+            || back.off_time != n.off_time
+        {
+            viol(
+                a,
+                "round_trip",
+                "Group12Var1",
+                format!("{n:?} -> binding -> {back:?}"),
+            );
         } else {
             out::count("round_trips_ok", 1);
         }
@@ -881,14 +1655,44 @@ fn more_structs(a: &ShardArgs, r: &mut Rng) {
     // event buffer state reported to the application: eleven distinct counts
     {
         let n = dnp3::outstation::BufferState {
-            classes: dnp3::outstation::ClassCount { num_class_1: 1, num_class_2: 2, num_class_3: 3 },
-            types: dnp3::outstation::TypeCount { num_binary_input: 11, num_double_bit_binary_input: 12, num_binary_output_status: 13, num_counter: 14, num_frozen_counter: 15, num_analog: 16, num_analog_output_status: 17, num_octet_string: 18 },
+            classes: dnp3::outstation::ClassCount {
+                num_class_1: 1,
+                num_class_2: 2,
+                num_class_3: 3,
+            },
+            types: dnp3::outstation::TypeCount {
+                num_binary_input: 11,
+                num_double_bit_binary_input: 12,
+                num_binary_output_status: 13,
+                num_counter: 14,
+                num_frozen_counter: 15,
+                num_analog: 16,
+                num_analog_output_status: 17,
+                num_octet_string: 18,
+            },
         };
         let f: ffi::BufferState = n.into();
-        let got = [f.classes.num_class_1, f.classes.num_class_2, f.classes.num_class_3, f.types.num_binary_input, f.types.num_double_bit_binary_input, f.types.num_binary_output_status, f.types.num_counter, f.types.num_frozen_counter, f.types.num_analog, f.types.num_analog_output_status, f.types.num_octet_string];
+        let got = [
+            f.classes.num_class_1,
+            f.classes.num_class_2,
+            f.classes.num_class_3,
+            f.types.num_binary_input,
+            f.types.num_double_bit_binary_input,
+            f.types.num_binary_output_status,
+            f.types.num_counter,
+            f.types.num_frozen_counter,
+            f.types.num_analog,
+            f.types.num_analog_output_status,
+            f.types.num_octet_string,
+        ];
         out::eval(1);
         if got != [1, 2, 3, 11, 12, 13, 14, 15, 16, 17, 18] {
-            viol(a, "field_lost", "BufferState", format!("buffer state counts arrive as {got:?}"));
+            viol(
+                a,
+                "field_lost",
+                "BufferState",
+                format!("buffer state counts arrive as {got:?}"),
+            );
         } else {
             out::count("struct_sentinels_ok", 1);
         }
@@ -896,50 +1700,120 @@ fn more_structs(a: &ShardArgs, r: &mut Rng) {
     // outstation features: one at a time
     for k in 0..4 {
         let b = |i: usize| i == k;
-        let f = ffi::OutstationFeatures { self_address: b(0), broadcast: b(1), unsolicited: b(2), respond_to_any_master: b(3) };
+        let f = ffi::OutstationFeatures {
+            self_address: b(0),
+            broadcast: b(1),
+            unsolicited: b(2),
+            respond_to_any_master: b(3),
+        };
         let n: dnp3::outstation::Features = (&f).into();
         let on = |x: dnp3::outstation::Feature| matches!(x, dnp3::outstation::Feature::Enabled);
-        let got = [on(n.self_address), on(n.broadcast), on(n.unsolicited), on(n.respond_to_any_master)];
+        let got = [
+            on(n.self_address),
+            on(n.broadcast),
+            on(n.unsolicited),
+            on(n.respond_to_any_master),
+        ];
         out::eval(1);
         if (0..4).any(|i| got[i] != b(i)) {
-            viol(a, "field_lost", &format!("OutstationFeatures|{k}"), format!("feature {k} converted to {n:?}"));
+            viol(
+                a,
+                "field_lost",
+                &format!("OutstationFeatures|{k}"),
+                format!("feature {k} converted to {n:?}"),
+            );
         } else {
             out::count("struct_sentinels_ok", 1);
         }
     }
     // retry / connect strategies, file read configurations, open file, UTC timestamp
     {
-        let f: ffi::RetryStrategy = ffi::RetryStrategyFields { min_delay: Duration::from_millis(123), max_delay: Duration::from_millis(45_678) }.into();
+        let f: ffi::RetryStrategy = ffi::RetryStrategyFields {
+            min_delay: Duration::from_millis(123),
+            max_delay: Duration::from_millis(45_678),
+        }
+        .into();
         let n: dnp3::app::RetryStrategy = f.into();
         out::eval(1);
         if !dbg_has(&n, &["123ms".into(), "45.678s".into()]) {
-            viol(a, "field_lost", "RetryStrategy", format!("retry strategy (123 ms, 45678 ms) converted to {n:?}"));
+            viol(
+                a,
+                "field_lost",
+                "RetryStrategy",
+                format!("retry strategy (123 ms, 45678 ms) converted to {n:?}"),
+            );
         } else {
             out::count("struct_sentinels_ok", 1);
         }
-        let f: ffi::ConnectStrategy = ffi::ConnectStrategyFields { min_connect_delay: Duration::from_millis(111), max_connect_delay: Duration::from_millis(22_222), reconnect_delay: Duration::from_millis(3_333) }.into();
+        let f: ffi::ConnectStrategy = ffi::ConnectStrategyFields {
+            min_connect_delay: Duration::from_millis(111),
+            max_connect_delay: Duration::from_millis(22_222),
+            reconnect_delay: Duration::from_millis(3_333),
+        }
+        .into();
         let n: dnp3::app::ConnectStrategy = f.into();
         let t = format!("{n:?}");
         let pos = |x: &str| t.find(x);
         out::eval(1);
-        if !(pos("111ms").is_some() && pos("22.222s").is_some() && pos("3.333s").is_some() && pos("111ms") < pos("22.222s") && pos("22.222s") < pos("3.333s")) {
-            viol(a, "field_lost", "ConnectStrategy", format!("connect strategy (111 ms, 22222 ms, 3333 ms) converted to {t}"));
+        if !(pos("111ms").is_some()
+            && pos("22.222s").is_some()
+            && pos("3.333s").is_some()
+            && pos("111ms") < pos("22.222s")
+            && pos("22.222s") < pos("3.333s"))
+        {
+            viol(
+                a,
+                "field_lost",
+                "ConnectStrategy",
+                format!("connect strategy (111 ms, 22222 ms, 3333 ms) converted to {t}"),
+            );
         } else {
             out::count("struct_sentinels_ok", 1);
         }
-        let n: dnp3::master::FileReadConfig = ffi::FileReadConfig { max_block_size: 777, max_file_size: 99_999 }.into();
-        let d: dnp3::master::DirReadConfig = ffi::DirReadConfig { max_block_size: 555, max_file_size: 88_888 }.into();
+        let n: dnp3::master::FileReadConfig = ffi::FileReadConfig {
+            max_block_size: 777,
+            max_file_size: 99_999,
+        }
+        .into();
+        let d: dnp3::master::DirReadConfig = ffi::DirReadConfig {
+            max_block_size: 555,
+            max_file_size: 88_888,
+        }
+        .into();
         out::eval(2);
-        if n.max_block_size != 777 || n.max_file_size != 99_999 || d.max_block_size != 555 || d.max_file_size != 88_888 {
-            viol(a, "field_lost", "FileReadConfig", format!("file / directory read configuration converted to {n:?} / {d:?}"));
+        if n.max_block_size != 777
+            || n.max_file_size != 99_999
+            || d.max_block_size != 555
+            || d.max_file_size != 88_888
+        {
+            viol(
+                a,
+                "field_lost",
+                "FileReadConfig",
+                format!("file / directory read configuration converted to {n:?} / {d:?}"),
+            );
         } else {
             out::count("struct_sentinels_ok", 2);
         }
-        for (valid, v) in [(true, 0u64), (true, 0x0000_FFFF_FFFF_FFFF), (false, 5), (true, r.u64() & 0x0000_FFFF_FFFF_FFFF)] {
-            let n: Option<Timestamp> = ffi::UtcTimestamp { value: v, is_valid: valid }.into();
+        for (valid, v) in [
+            (true, 0u64),
+            (true, 0x0000_FFFF_FFFF_FFFF),
+            (false, 5),
+            (true, r.u64() & 0x0000_FFFF_FFFF_FFFF),
+        ] {
+            let n: Option<Timestamp> = ffi::UtcTimestamp {
+                value: v,
+                is_valid: valid,
+            }
+            .into();
             out::eval(1);
             if n.map(|t| t.raw_value()) != if valid { Some(v) } else { None } {
-                viol(a, "field_lost", "UtcTimestamp", format!("UTC timestamp (valid={valid}, {v}) converted to {n:?}"));
+                viol(
+                    a,
+                    "field_lost",
+                    "UtcTimestamp",
+                    format!("UTC timestamp (valid={valid}, {v}) converted to {n:?}"),
+                );
             } else {
                 out::count("struct_sentinels_ok", 1);
             }
@@ -949,10 +1823,21 @@ fn more_structs(a: &ShardArgs, r: &mut Rng) {
     for bits in 0..=255u8 {
         let c = dnp3::verif::util::control_field_from(bits);
         let f: ffi::ControlField = c.into();
-        let back = (f.fir as u8) << 7 | (f.fin as u8) << 6 | (f.con as u8) << 5 | (f.uns as u8) << 4 | (f.seq & 0x0F);
+        let back = (f.fir as u8) << 7
+            | (f.fin as u8) << 6
+            | (f.con as u8) << 5
+            | (f.uns as u8) << 4
+            | (f.seq & 0x0F);
         out::eval(1);
         if back != bits {
-            viol(a, "field_lost", "ControlField", format!("control octet {bits:#04x} read back through the binding struct as {back:#04x}"));
+            viol(
+                a,
+                "field_lost",
+                "ControlField",
+                format!(
+                    "control octet {bits:#04x} read back through the binding struct as {back:#04x}"
+                ),
+            );
         } else {
             out::count("control_fields_ok", 1);
         }
@@ -960,7 +1845,16 @@ fn more_structs(a: &ShardArgs, r: &mut Rng) {
     // header info: every qualifier x flags, a sample of variations
     {
         let vars = variants::<ffi::Variation>();
-        let quals = [QualifierCode::Range8, QualifierCode::Range16, QualifierCode::AllObjects, QualifierCode::Count8, QualifierCode::Count16, QualifierCode::CountAndPrefix8, QualifierCode::CountAndPrefix16, QualifierCode::FreeFormat16];
+        let quals = [
+            QualifierCode::Range8,
+            QualifierCode::Range16,
+            QualifierCode::AllObjects,
+            QualifierCode::Count8,
+            QualifierCode::Count16,
+            QualifierCode::CountAndPrefix8,
+            QualifierCode::CountAndPrefix16,
+            QualifierCode::FreeFormat16,
+        ];
         for q in quals {
             for (ev, fl) in [(false, false), (true, false), (false, true), (true, true)] {
                 let fv = r.pick(&vars).clone();
@@ -968,7 +1862,11 @@ fn more_structs(a: &ShardArgs, r: &mut Rng) {
                 let n = dnp3::verif::util::header_info(nv, q, ev, fl);
                 let f: ffi::HeaderInfo = n.into();
                 out::eval(1);
-                if f.variation() != fv || norm(&f.qualifier()) != norm(&q) || f.is_event() != ev || f.has_flags() != fl {
+                if f.variation() != fv
+                    || norm(&f.qualifier()) != norm(&q)
+                    || f.is_event() != ev
+                    || f.has_flags() != fl
+                {
                     viol(a, "field_lost", &format!("HeaderInfo|{}", norm(&q)), format!("header info ({nv:?}, {q:?}, event={ev}, flags={fl}) converted to ({:?}, {:?}, {}, {})", f.variation(), f.qualifier(), f.is_event(), f.has_flags()));
                 } else {
                     out::count("header_infos_ok", 1);
@@ -983,10 +1881,22 @@ fn more_structs(a: &ShardArgs, r: &mut Rng) {
             for fc in variants::<ffi::FlowControl>() {
                 for pa in variants::<ffi::Parity>() {
                     for sb in variants::<ffi::StopBits>() {
-                        let f: ffi::SerialSettings = ffi::SerialSettingsFields { baud_rate: 19_201, data_bits: db.clone(), flow_control: fc.clone(), parity: pa.clone(), stop_bits: sb.clone() }.into();
+                        let f: ffi::SerialSettings = ffi::SerialSettingsFields {
+                            baud_rate: 19_201,
+                            data_bits: db.clone(),
+                            flow_control: fc.clone(),
+                            parity: pa.clone(),
+                            stop_bits: sb.clone(),
+                        }
+                        .into();
                         let n: dnp3::serial::SerialSettings = f.into();
                         out::eval(1);
-                        if n.baud_rate != 19_201 || norm(&n.data_bits) != norm(&db) || norm(&n.flow_control) != norm(&fc) || norm(&n.parity) != norm(&pa) || norm(&n.stop_bits) != norm(&sb) {
+                        if n.baud_rate != 19_201
+                            || norm(&n.data_bits) != norm(&db)
+                            || norm(&n.flow_control) != norm(&fc)
+                            || norm(&n.parity) != norm(&pa)
+                            || norm(&n.stop_bits) != norm(&sb)
+                        {
                             viol(a, "name_mismatch", "SerialSettings", format!("serial settings ({db:?}, {fc:?}, {pa:?}, {sb:?}) converted to {n:?}"));
                         } else {
                             out::count("variants_map_to_namesake", 1);
@@ -997,11 +1907,21 @@ fn more_structs(a: &ShardArgs, r: &mut Rng) {
         }
         out::distinct("conv/SerialSettings");
         let wait = dnp3::serial::PortState::Wait(Duration::from_secs(1));
-        for (n, want) in [(dnp3::serial::PortState::Disabled, "disabled"), (wait, "wait"), (dnp3::serial::PortState::Open, "open"), (dnp3::serial::PortState::Shutdown, "shutdown")] {
+        for (n, want) in [
+            (dnp3::serial::PortState::Disabled, "disabled"),
+            (wait, "wait"),
+            (dnp3::serial::PortState::Open, "open"),
+            (dnp3::serial::PortState::Shutdown, "shutdown"),
+        ] {
             let f: ffi::PortState = n.into();
             out::eval(1);
             if norm(&f) != want {
-                viol(a, "name_mismatch", &format!("PortState|{want}"), format!("{n:?} is converted to {f:?}"));
+                viol(
+                    a,
+                    "name_mismatch",
+                    &format!("PortState|{want}"),
+                    format!("{n:?} is converted to {f:?}"),
+                );
             } else {
                 out::count("variants_map_to_namesake", 1);
             }
@@ -1009,8 +1929,22 @@ fn more_structs(a: &ShardArgs, r: &mut Rng) {
     }
     #[cfg(feature = "enable-tls")]
     {
-        ffi_to_native!(a, "MinTlsVersion", ffi::MinTlsVersion, dnp3::tcp::tls::MinTlsVersion, 2, &[]);
-        ffi_to_native!(a, "CertificateMode", ffi::CertificateMode, dnp3::tcp::tls::CertificateMode, 2, &[]);
+        ffi_to_native!(
+            a,
+            "MinTlsVersion",
+            ffi::MinTlsVersion,
+            dnp3::tcp::tls::MinTlsVersion,
+            2,
+            &[]
+        );
+        ffi_to_native!(
+            a,
+            "CertificateMode",
+            ffi::CertificateMode,
+            dnp3::tcp::tls::CertificateMode,
+            2,
+            &[]
+        );
     }
 }
 
@@ -1021,7 +1955,15 @@ fn structs_small(a: &ShardArgs) {
         let back: ffi::Flags = n.into();
         out::eval(1);
         if n.value != v || back.value != v {
-            viol(a, "field_lost", "Flags", format!("flag octet {v:#04x} converted to {:#04x} and back to {:#04x}", n.value, back.value));
+            viol(
+                a,
+                "field_lost",
+                "Flags",
+                format!(
+                    "flag octet {v:#04x} converted to {:#04x} and back to {:#04x}",
+                    n.value, back.value
+                ),
+            );
         } else {
             out::count("flags_ok", 1);
         }
@@ -1032,7 +1974,12 @@ fn structs_small(a: &ShardArgs) {
         let back: ffi::Timestamp = n.into();
         out::eval(1);
         if back.quality() != q {
-            viol(a, "round_trip", "Timestamp", format!("time quality {q:?} -> {n:?} -> {:?}", back.quality()));
+            viol(
+                a,
+                "round_trip",
+                "Timestamp",
+                format!("time quality {q:?} -> {n:?} -> {:?}", back.quality()),
+            );
         } else {
             out::count("round_trips_ok", 1);
         }
@@ -1162,7 +2109,22 @@ fn differential(a: &ShardArgs) {
             });
         });
         if let Some((rule, sig, why)) = bad {
-            out::violation(P, &format!("C20.{rule}"), &sig, J::obj(vec![("why", J::s(why)), ("history", J::arr(hist.iter().rev().take(30).rev().cloned()))]), J::obj(vec![("check", J::s("c20")), ("seed", J::U(a.seed)), ("shard", J::U(a.shard)), ("nshards", J::U(a.nshards)), ("scenario", J::U(s))]));
+            out::violation(
+                P,
+                &format!("C20.{rule}"),
+                &sig,
+                J::obj(vec![
+                    ("why", J::s(why)),
+                    ("history", J::arr(hist.iter().rev().take(30).rev().cloned())),
+                ]),
+                J::obj(vec![
+                    ("check", J::s("c20")),
+                    ("seed", J::U(a.seed)),
+                    ("shard", J::U(a.shard)),
+                    ("nshards", J::U(a.nshards)),
+                    ("scenario", J::U(s)),
+                ]),
+            );
         }
         out::distinct(&format!("D/evbuf{evbuf}"));
     }
@@ -1179,7 +2141,16 @@ fn c20(a: &ShardArgs) -> Result<(), String> {
     }
     differential(a);
     for p in dnp3::verif::util::take_panics() {
-        out::violation(P, "C20.panic", &dnp3::verif::util::norm_location(&p.location), J::obj(vec![("why", J::s(format!("panic {} at {}", p.message, p.location)))]), replay(a, "panic"));
+        out::violation(
+            P,
+            "C20.panic",
+            &dnp3::verif::util::norm_location(&p.location),
+            J::obj(vec![(
+                "why",
+                J::s(format!("panic {} at {}", p.message, p.location)),
+            )]),
+            replay(a, "panic"),
+        );
     }
     Ok(())
 }
